@@ -257,6 +257,8 @@ Lemma cur_some r l : r_curr r = Some (g_h l) -> NoDup (map g_h (r_gates r)) ->
   In l (r_gates r) -> cur r = Some l.
 Proof. intros E ND I. unfold cur. rewrite E. apply find_gate_in; auto. Qed.
 
+Ltac splits := repeat match goal with |- _ /\ _ => split end.
+
 Lemma NoDup_snoc {A} (l : list A) a : NoDup l -> ~ In a l -> NoDup (l ++ [a]).
 Proof.
   induction l as [|b rest IH]; simpl; intros ND N.
@@ -269,7 +271,7 @@ Qed.
 Lemma rinv_cur r : rinv r -> exists l, cur r = Some l /\ r_curr r = Some (g_h l) /\
   is_leader l (r_gates r) /\ find_gate (g_h l) (r_gates r) = Some l.
 Proof.
-  intros (ND & _ & _ & l & C & E & L). exists l. repeat split; auto; try apply L.
+  intros (ND & _ & _ & l & C & E & L). exists l. splits; auto; try apply L.
   unfold cur in C. rewrite E in C. auto.
 Qed.
 
@@ -289,18 +291,18 @@ Proof.
   { unfold cur, r'. simpl. destruct take.
     - rewrite find_gate_app_r; auto. unfold find_gate. simpl. rewrite N.eqb_refl. auto.
     - rewrite E. rewrite (find_gate_app_l _ _ _ _ FG). unfold cur in C. rewrite E in C. auto. }
-  split; auto. unfold rinv. simpl. repeat split; auto.
+  split; auto. unfold rinv. simpl. splits; auto.
   - apply pos_sorted_snoc; auto.
   - apply Forall_app. split.
     + eapply Forall_impl; [|apply FC]. simpl. intros; lia.
     + constructor; auto. simpl. lia.
   - destruct L as [Ll Ml]. destruct take.
-    + exists g. repeat split; auto.
+    + exists g. splits; auto. split.
       * apply in_or_app. right. left. auto.
       * intros x Hx. apply in_app_or in Hx. destruct Hx as [Hx|[<-|[]]]; auto.
         right. apply better_spec. left. simpl.
         assert (g_auth x <= g_auth l) by (apply (leader_auth l (r_gates r)); [split|]; auto). lia.
-    + exists l. rewrite Cr. repeat split; auto.
+    + exists l. rewrite Cr. splits; auto. split.
       * apply in_or_app. auto.
       * intros x Hx. apply in_app_or in Hx. destruct Hx as [Hx|[<-|[]]]; auto.
         right. apply better_spec. simpl. rewrite Forall_forall in FC. specialize (FC _ Ll). lia.
@@ -316,28 +318,813 @@ Proof.
   intros I N. pose proof (rinv_cur _ I) as (l & C & E & L & FG).
   unfold region_open. rewrite E, FG.
   destruct (o_eic c && is_some (Some (g_h l))).
-  { intros H; inversion H; subst. repeat split; auto; try discriminate. left; auto. }
+  { intros H; inversion H; subst. splits; auto; try discriminate. left; auto. }
   destruct (existsb _ _).
-  { intros H; inversion H; subst. repeat split; auto; try discriminate. left; auto. }
+  { intros H; inversion H; subst. splits; auto; try discriminate. left; auto. }
   destruct (g_auth l <? o_auth c) eqn:Lt.
   - apply N.ltb_lt in Lt. intros H; inversion H; subst.
     destruct (rinv_add r (o_h c) (o_subj c) (o_auth c) (tr_union (r_tr r) (o_tr c)) true I N) as [I' C'].
     { intros l' Cl'. rewrite C in Cl'. inversion Cl'; subst; auto. }
-    simpl in I', C'. repeat split; auto; try discriminate.
-    + right. unfold hst. rewrite C, C'. simpl. auto.
-    + intros X; contradiction.
-    + intros X; contradiction.
+    simpl in I', C'. splits; auto; try discriminate; try (intros X; contradiction).
+    right. unfold hst. rewrite C, C'. simpl. auto.
   - apply N.ltb_ge in Lt.
     destruct (o_eou c && _).
-    + intros H; inversion H; subst. repeat split; auto; try discriminate.
-      * apply I. * apply I. * apply I.
-      * exists l. unfold cur. simpl. rewrite E. repeat split; auto; apply L.
-      * left. split; auto. unfold hst, cur. simpl. auto.
+    + intros H; inversion H; subst. splits; auto; try discriminate.
+      * destruct I as (I1 & I2 & I3 & _). unfold rinv. simpl. splits; auto.
+        exists l. unfold cur. simpl. splits; auto.
+      * left. split; auto. unfold hst, cur, gstate. simpl. rewrite E. auto.
     + intros H; inversion H; subst.
       destruct (rinv_add r (o_h c) (o_subj c) (o_auth c) (tr_union (r_tr r) (o_tr c)) false I N) as [I' C'].
       { intros l' Cl'. rewrite C in Cl'. inversion Cl'; subst; auto. }
-      simpl in I', C'. rewrite E in *. repeat split; auto; try discriminate.
-      * left. split; auto. unfold hst. rewrite C'. rewrite C. simpl. auto.
-      * intros X; contradiction.
-      * intros X; contradiction.
+      simpl in I', C'. rewrite E in *. splits; auto; try discriminate; try (intros X; contradiction).
+      left. split; auto. unfold hst. rewrite C'. rewrite C. simpl. auto.
+Qed.
+
+(* ---------- region.update ---------- *)
+Definition is_perm (ord : list gate -> list gate) : Prop := forall l, Permutation l (ord l).
+
+Definition upd_gate (h a : N) (g : gate) : gate :=
+  if g_h g =? h then Gate (g_h g) (g_subj g) a (g_pos g) else g.
+
+Lemma set_auth_gates_map h a gs : set_auth_gates h a gs = map (upd_gate h a) gs.
+Proof. reflexivity. Qed.
+
+Lemma find_gate_set_auth_other k h a gs :
+  k <> h -> find_gate k (set_auth_gates h a gs) = find_gate k gs.
+Proof.
+  intros N. unfold find_gate. induction gs as [|g rest IH]; simpl; auto.
+  destruct (g_h g =? h) eqn:E; simpl.
+  - apply N.eqb_eq in E. destruct (g_h g =? k) eqn:E2; auto. apply N.eqb_eq in E2. congruence.
+  - destruct (g_h g =? k); auto.
+Qed.
+
+Lemma find_gate_set_auth_same h a gs g :
+  find_gate h gs = Some g ->
+  find_gate h (set_auth_gates h a gs) = Some (Gate (g_h g) (g_subj g) a (g_pos g)).
+Proof.
+  unfold find_gate. induction gs as [|b rest IH]; simpl; [discriminate|].
+  destruct (g_h b =? h) eqn:E; simpl.
+  - rewrite E. intros X; inversion X; subst. auto.
+  - rewrite E. auto.
+Qed.
+
+Lemma Forall_pos_map (P : N -> Prop) gs gs' :
+  map g_pos gs' = map g_pos gs -> Forall (fun g => P (g_pos g)) gs -> Forall (fun g => P (g_pos g)) gs'.
+Proof.
+  revert gs'. induction gs as [|g rest IH]; intros [|g' rest'] E F; simpl in *; try discriminate; auto.
+  inversion E. inversion F; subst. constructor; auto. rewrite H0; auto.
+Qed.
+
+Lemma in_set_auth x' h a gs :
+  In x' (set_auth_gates h a gs) -> exists x, In x gs /\ x' = upd_gate h a x.
+Proof.
+  rewrite set_auth_gates_map. intros I. apply in_map_iff in I. destruct I as (x & E & I). eauto.
+Qed.
+
+Lemma NoDup_h_inj gs x y :
+  NoDup (map g_h gs) -> In x gs -> In y gs -> g_h x = g_h y -> x = y.
+Proof.
+  induction gs as [|a rest IH]; simpl; intros ND Hx Hy E; [destruct Hx|].
+  inversion ND; subst.
+  destruct Hx as [<-|Hx], Hy as [<-|Hy]; auto.
+  - exfalso. apply H1. rewrite E. apply in_map; auto.
+  - exfalso. apply H1. rewrite <- E. apply in_map; auto.
+Qed.
+
+Lemma region_update_inv ord r h a r' st x :
+  rinv r -> is_perm ord -> In h (map g_h (r_gates r)) ->
+  region_update ord r h a = (r', st, x) ->
+  rinv r' /\ st = Ok /\ r_res r' = r_res r /\ map g_h (r_gates r') = map g_h (r_gates r) /\
+  xrel x (hst r) (hst r') /\ region_update (fun l => l) r h a = (r', st, x).
+Proof.
+  intros I P Hh. pose proof (rinv_cur _ I) as (l & C & E & L & FG).
+  destruct I as (ND & PS & FC & _).
+  destruct (find_gate_is_some _ _ Hh) as (g & Fg).
+  destruct (find_gate_some _ _ _ Fg) as (Ig & Eh).
+  set (g' := Gate (g_h g) (g_subj g) a (g_pos g)).
+  set (gs' := set_auth_gates h a (r_gates r)).
+  assert (Hh' : map g_h gs' = map g_h (r_gates r)) by apply set_auth_h.
+  assert (Hp' : map g_pos gs' = map g_pos (r_gates r)) by apply set_auth_pos.
+  assert (ND' : NoDup (map g_h gs')) by (rewrite Hh'; auto).
+  assert (PS' : pos_sorted gs') by (eapply pos_sorted_map; eauto).
+  assert (FC' : Forall (fun g => g_pos g < r_counter r) gs').
+  { apply (Forall_pos_map (fun p => p < r_counter r) (r_gates r)); auto. }
+  assert (Fg' : find_gate h gs' = Some g') by (apply find_gate_set_auth_same; auto).
+  destruct (find_gate_some _ _ _ Fg') as (Ig' & _).
+  assert (Cases : forall y, In y gs' -> y = g' \/ (In y (r_gates r) /\ g_h y <> h)).
+  { intros y Iy. apply in_set_auth in Iy. destruct Iy as (y0 & Iy0 & ->). unfold upd_gate.
+    destruct (g_h y0 =? h) eqn:Ey.
+    - apply N.eqb_eq in Ey. left. assert (y0 = g) by (apply (NoDup_h_inj (r_gates r)); auto; congruence).
+      subst. auto.
+    - apply N.eqb_neq in Ey. right. auto. }
+  assert (Keep : forall y, In y (r_gates r) -> g_h y <> h -> In y gs').
+  { intros y Iy Ny. unfold gs'. rewrite set_auth_gates_map. apply in_map_iff. exists y. split; auto.
+    unfold upd_gate. apply N.eqb_neq in Ny. rewrite Ny. auto. }
+  assert (PD : pos_distinct (fun y => In y gs')) by (apply pos_sorted_distinct; auto).
+  unfold region_update. rewrite Fg, E. fold g' gs'.
+  destruct (g_h l =? h) eqn:El.
+  - (* the holder changes its own authority *)
+    apply N.eqb_eq in El.
+    assert (l = g) by (apply (NoDup_h_inj (r_gates r)); auto; [apply L|congruence]). subst l.
+    assert (PDo : forall o, Permutation gs' o -> pos_distinct (oset (Some g') o)).
+    { intros o Po y z Hy Hz. apply PD.
+      - destruct Hy as [Ey|Iy]; [inversion Ey; subst; auto|].
+        eapply Permutation_in; [apply Permutation_sym|]; eauto.
+      - destruct Hz as [Ez|Iz]; [inversion Ez; subst; auto|].
+        eapply Permutation_in; [apply Permutation_sym|]; eauto. }
+    assert (Eq : pick (Some g') (ord gs') = pick (Some g') gs').
+    { symmetry. apply pick_perm; [apply PDo, Permutation_refl|apply P]. }
+    rewrite Eq. pose proof (pick_spec gs' (Some g') (PDo _ (Permutation_refl _))) as PSp.
+    destruct (pick (Some g') gs') as [m|] eqn:Pm.
+    + intros H; inversion H; subst.
+      assert (Lm : is_leader m gs').
+      { eapply is_max_ext; [|apply PSp]. intros y. unfold oset. split; [intros [Ey|Iy]|]; auto.
+        inversion Ey; subst; auto. }
+      assert (Cm : cur (set_region_gates r gs' (Some (g_h m))) = Some m).
+      { apply cur_some; simpl; auto. apply Lm. }
+      splits; auto.
+      * unfold rinv. simpl. splits; auto. exists m. splits; auto.
+      * right. unfold hst. rewrite C, Cm. simpl. auto.
+    + destruct PSp as [X _]. discriminate.
+  - (* somebody else changes its authority *)
+    apply N.eqb_neq in El.
+    assert (Il : In l gs') by (apply Keep; auto; apply L).
+    assert (Fl : find_gate (g_h l) gs' = Some l) by (apply find_gate_in; auto).
+    rewrite Fl.
+    assert (Others : forall y, In y gs' -> y <> g' -> y = l \/ better l y = true).
+    { intros y Iy Ny. destruct (Cases y Iy) as [|[Iy0 _]]; [contradiction|]. apply L; auto. }
+    destruct (better g' l) eqn:B.
+    + intros H; inversion H; subst.
+      assert (Cm : cur (set_region_gates r gs' (Some (g_h g))) = Some g').
+      { apply (cur_some _ g'); simpl; auto. }
+      splits; auto.
+      * unfold rinv. simpl. splits; auto. exists g'. splits; auto. split; auto.
+        intros y Iy. destruct (Cases y Iy) as [|[Iy0 Ny]]; auto. right.
+        destruct (L) as [_ ML]. destruct (ML _ Iy0) as [->|By]; auto.
+        eapply better_trans; eauto.
+      * right. unfold hst. rewrite C, Cm. simpl. auto.
+    + intros H; inversion H; subst.
+      assert (Cm : cur (set_region_gates r gs' (Some (g_h l))) = Some l).
+      { apply cur_some; simpl; auto. }
+      splits; auto.
+      * unfold rinv. simpl. splits; auto. exists l. splits; auto. split; auto.
+        intros y Iy. destruct (Cases y Iy) as [->|[Iy0 Ny]].
+        -- destruct (PD g' l Ig' Il) as [X|Np]; [left; auto|].
+           destruct (better_total g' l Np) as [X|X]; [congruence|right; auto].
+        -- apply L; auto.
+      * left. split; auto. unfold hst. rewrite C, Cm. simpl. auto.
+Qed.
+
+(* ---------- region.release ---------- *)
+Lemma region_release_inv ord r h r' x res rm :
+  rinv r -> is_perm ord -> In h (map g_h (r_gates r)) ->
+  region_release ord r h = (r', x, res, rm) ->
+  r_res r' = r_res r /\
+  r_gates r' = filter (fun g => negb (g_h g =? h)) (r_gates r) /\
+  region_release (fun l => l) r h = (r', x, res, rm) /\
+  (if rm then r_gates r' = [] /\ res = r_res r /\ x_from x = hst r /\ x_to x = None
+   else rinv r' /\ xrel x (hst r) (hst r')).
+Proof.
+  intros I P Hh. pose proof (rinv_cur _ I) as (l & C & E & L & FG).
+  destruct I as (ND & PS & FC & _).
+  destruct (find_gate_is_some _ _ Hh) as (g & Fg).
+  destruct (find_gate_some _ _ _ Fg) as (Ig & Eh).
+  set (gs := filter (fun g => negb (g_h g =? h)) (r_gates r)).
+  assert (NDs : NoDup (map g_h gs)).
+  { unfold gs. rewrite filter_h_map. apply NoDup_filter; auto. }
+  assert (PSs : pos_sorted gs) by (apply pos_sorted_filter; auto).
+  assert (FCs : Forall (fun g => g_pos g < r_counter r) gs).
+  { apply Forall_forall. intros y Iy. apply filter_In in Iy. rewrite Forall_forall in FC. apply FC; tauto. }
+  assert (PD : pos_distinct (oset None gs)).
+  { intros y z [Ey|Iy] [Ez|Iz]; try discriminate. apply (pos_sorted_distinct gs); auto. }
+  unfold region_release. rewrite E, Fg. fold gs.
+  destruct (g_h l =? h) eqn:El.
+  - apply N.eqb_eq in El.
+    assert (l = g) by (apply (NoDup_h_inj (r_gates r)); auto; [apply L|congruence]). subst l.
+    assert (Eq : pick None (ord gs) = pick None gs).
+    { symmetry. apply pick_perm; auto. }
+    rewrite Eq. pose proof (pick_spec gs None PD) as PSp.
+    destruct (pick None gs) as [m|] eqn:Pm; simpl.
+    + intros H; inversion H; subst.
+      assert (Lm : is_leader m gs).
+      { eapply is_max_ext; [|apply PSp]. intros y. unfold oset. split; [intros [Ey|Iy]|]; auto.
+        discriminate. }
+      assert (Cm : cur (set_region_gates r gs (Some (g_h m))) = Some m).
+      { apply cur_some; simpl; auto. apply Lm. }
+      splits; auto.
+      * unfold rinv. simpl. splits; auto. exists m. splits; auto.
+      * right. unfold hst. rewrite C, Cm. simpl. auto.
+    + intros H; inversion H; subst. destruct PSp as [_ Eg]. splits; auto.
+      unfold hst. rewrite C. simpl. auto.
+  - apply N.eqb_neq in El. intros H; inversion H; subst.
+    assert (Il : In l gs).
+    { apply filter_In. split; [apply L|]. apply negb_true_iff, N.eqb_neq. auto. }
+    assert (Cm : cur (set_region_gates r gs (Some (g_h l))) = Some l).
+    { apply cur_some; simpl; auto. }
+    splits; auto.
+    + unfold rinv. simpl. splits; auto. exists l. splits; auto. split; auto.
+      intros y Iy. apply L. apply filter_In in Iy. tauto.
+    + left. split; auto. unfold hst. rewrite C, Cm. simpl. auto.
+Qed.
+
+(* ---------- the controller ---------- *)
+Definition handles (rs : list region) : list N := flat_map (fun r => map g_h (r_gates r)) rs.
+Definition hold (s : ctl) : N -> option cstate := holder (c_regions s).
+
+Definition cinv (s : ctl) : Prop :=
+  Forall rinv (c_regions s) /\
+  NoDup (handles (c_regions s)) /\
+  (forall h, In h (c_live s) <-> In h (handles (c_regions s))) /\
+  incl (handles (c_regions s)) (c_used s) /\
+  NoDup (map r_res (c_regions s)) /\
+  Forall (fun r => r_res r <= c_nres s) (c_regions s).
+
+Lemma NoDup_app_iff {A} (l l' : list A) :
+  NoDup (l ++ l') <-> NoDup l /\ NoDup l' /\ forall a, In a l -> ~ In a l'.
+Proof.
+  induction l as [|b rest IH]; simpl.
+  - split; [intros H; splits; auto; constructor|tauto].
+  - split.
+    + intros ND. inversion ND; subst. apply IH in H2. destruct H2 as (N1 & N2 & D). splits; auto.
+      * constructor; auto. intros I. apply H1. apply in_or_app; auto.
+      * intros a [<-|Ia]; auto. intros I. apply H1. apply in_or_app; auto.
+    + intros (N1 & N2 & D). inversion N1; subst. constructor.
+      * intros I. apply in_app_or in I. destruct I as [I|I]; auto. apply (D b); auto.
+      * apply IH. splits; auto.
+Qed.
+
+Lemma handles_app l1 l2 : handles (l1 ++ l2) = handles l1 ++ handles l2.
+Proof. apply flat_map_app. Qed.
+Lemma handles_mid l1 r l2 :
+  handles (l1 ++ r :: l2) = handles l1 ++ map g_h (r_gates r) ++ handles l2.
+Proof. rewrite handles_app. reflexivity. Qed.
+
+Lemma in_mid {A} (x : A) a g b : In x (a ++ g ++ b) <-> In x a \/ In x g \/ In x b.
+Proof. rewrite !in_app_iff. tauto. Qed.
+
+Lemma NoDup_mid_replace {A} (a g g' b : list A) :
+  NoDup (a ++ g ++ b) -> NoDup g' ->
+  (forall x, In x g' -> ~ In x a /\ ~ In x b) -> NoDup (a ++ g' ++ b).
+Proof.
+  rewrite !NoDup_app_iff. intros (Na & (Ng & Nb & Dgb) & Dab) Ng' F. splits; auto.
+  - intros x Ix. apply F; auto.
+  - intros x Ix I. apply in_app_or in I. destruct I as [I|I].
+    + destruct (F x I) as [Fa _]. auto.
+    + apply (Dab x Ix). apply in_or_app; auto.
+Qed.
+
+Lemma NoDup_mid_remove {A} (a g b : list A) : NoDup (a ++ g ++ b) -> NoDup (a ++ b).
+Proof.
+  rewrite !NoDup_app_iff. intros (Na & (Ng & Nb & Dgb) & Dab). splits; auto.
+  intros x Ix I. apply (Dab x Ix). apply in_or_app; auto.
+Qed.
+
+Lemma has_gate_iff h r : has_gate h r = true <-> In h (map g_h (r_gates r)).
+Proof.
+  unfold has_gate. split.
+  - destruct (find_gate h (r_gates r)) eqn:E; [|discriminate]. intros _.
+    apply find_gate_some in E. destruct E as [I <-]. apply in_map; auto.
+  - intros I. destruct (find_gate_is_some _ _ I) as (g & ->). auto.
+Qed.
+
+Lemma on_region_split h rs :
+  In h (handles rs) ->
+  exists l1 r l2, rs = l1 ++ r :: l2 /\ In h (map g_h (r_gates r)) /\
+    forall A (f : region -> region * A) d,
+      on_region h f d rs = (l1 ++ fst (f r) :: l2, snd (f r)).
+Proof.
+  induction rs as [|r rest IH]; simpl; intros I; [destruct I|].
+  destruct (has_gate h r) eqn:Hg.
+  - apply has_gate_iff in Hg. exists [], r, rest. splits; auto.
+    intros A f d. destruct (f r); auto.
+  - apply in_app_or in I. destruct I as [I|I].
+    + apply has_gate_iff in I. congruence.
+    + destruct (IH I) as (l1 & r0 & l2 & -> & Hh & Eo).
+      exists (r :: l1), r0, l2. splits; auto. intros A f d. rewrite Eo. auto.
+Qed.
+
+Lemma region_of_split h rs :
+  In h (handles rs) ->
+  exists l1 r l2, rs = l1 ++ r :: l2 /\ In h (map g_h (r_gates r)) /\ region_of h rs = Some r.
+Proof.
+  induction rs as [|r rest IH]; simpl; intros I; [destruct I|].
+  destruct (has_gate h r) eqn:Hg.
+  - apply has_gate_iff in Hg. exists [], r, rest. auto.
+  - apply in_app_or in I. destruct I as [I|I].
+    + apply has_gate_iff in I. congruence.
+    + destruct (IH I) as (l1 & r0 & l2 & -> & Hh & Eo). exists (r :: l1), r0, l2. auto.
+Qed.
+
+Lemma open_in_split shared c rs :
+  n_overlapping c rs = 1%nat ->
+  exists l1 r l2 r' st x, rs = l1 ++ r :: l2 /\ region_open shared r c = (r', st, x) /\
+    open_in shared c rs = (l1 ++ r' :: l2, st, x).
+Proof.
+  unfold n_overlapping. induction rs as [|r rest IH]; simpl; [discriminate|].
+  destruct (overlaps (r_tr r) (o_tr c)); simpl.
+  - intros _. destruct (region_open shared r c) as [[r' st] x] eqn:E.
+    exists [], r, rest, r', st, x. auto.
+  - intros H. destruct (IH H) as (l1 & r0 & l2 & r' & st & x & -> & E & Eo).
+    exists (r :: l1), r0, l2, r', st, x. simpl. rewrite Eo. auto.
+Qed.
+
+(* holders *)
+Lemma holder_none rs rho : ~ In rho (map r_res rs) -> holder rs rho = None.
+Proof.
+  induction rs as [|r rest IH]; simpl; auto. intros N.
+  destruct (r_res r =? rho) eqn:E; [apply N.eqb_eq in E; exfalso; apply N; auto|].
+  apply IH. intros I. apply N; auto.
+Qed.
+
+Lemma holder_app_other l1 l2 rho :
+  ~ In rho (map r_res l1) -> holder (l1 ++ l2) rho = holder l2 rho.
+Proof.
+  induction l1 as [|r rest IH]; simpl; auto. intros N.
+  destruct (r_res r =? rho) eqn:E; [apply N.eqb_eq in E; exfalso; apply N; auto|].
+  apply IH. intros I. apply N; auto.
+Qed.
+
+Lemma holder_mid_at l1 r l2 :
+  ~ In (r_res r) (map r_res l1) -> holder (l1 ++ r :: l2) (r_res r) = hst r.
+Proof. intros N. rewrite holder_app_other; auto. simpl. rewrite N.eqb_refl. auto. Qed.
+
+Lemma holder_mid_other l1 r l2 k :
+  k <> r_res r -> holder (l1 ++ r :: l2) k = holder (l1 ++ l2) k.
+Proof.
+  intros N. induction l1 as [|a rest IH]; simpl.
+  - destruct (r_res r =? k) eqn:E; auto. apply N.eqb_eq in E. congruence.
+  - rewrite IH. auto.
+Qed.
+
+Lemma holder_res rs rho st : holder rs rho = Some st -> snd st = rho.
+Proof.
+  induction rs as [|r rest IH]; simpl; [discriminate|].
+  destruct (r_res r =? rho) eqn:E; auto. apply N.eqb_eq in E.
+  unfold hst. destruct (cur r); simpl; [|discriminate]. intros X; inversion X. auto.
+Qed.
+
+Lemma NoDup_res_mid l1 r l2 :
+  NoDup (map r_res (l1 ++ r :: l2)) ->
+  ~ In (r_res r) (map r_res l1) /\ ~ In (r_res r) (map r_res l2) /\ NoDup (map r_res (l1 ++ l2)).
+Proof.
+  rewrite !map_app. simpl. intros ND.
+  pose proof (NoDup_remove_1 _ _ _ ND) as N1. pose proof (NoDup_remove_2 _ _ _ ND) as N2.
+  splits; auto; intros I; apply N2; apply in_or_app; auto.
+Qed.
+
+Lemma remove_region_mid l1 r l2 :
+  ~ In (r_res r) (map r_res l1) -> r_gates r = [] ->
+  remove_region (r_res r) (l1 ++ r :: l2) = l1 ++ l2.
+Proof.
+  intros N G. induction l1 as [|a rest IH]; simpl.
+  - rewrite N.eqb_refl, G. auto.
+  - destruct (r_res a =? r_res r) eqn:E.
+    + apply N.eqb_eq in E. exfalso. apply N. left; auto.
+    + simpl. rewrite IH; auto. intros I. apply N. right; auto.
+Qed.
+
+Lemma Forall_mid {A} (P : A -> Prop) l1 x l2 :
+  Forall P (l1 ++ x :: l2) <-> Forall P l1 /\ P x /\ Forall P l2.
+Proof.
+  rewrite Forall_app. split.
+  - intros [F1 F2]. inversion F2; subst. auto.
+  - intros (F1 & Px & F2). auto.
+Qed.
+
+Lemma cinv_mid s l1 r l2 r' nres' used' live' :
+  cinv s -> c_regions s = l1 ++ r :: l2 -> rinv r' -> r_res r' = r_res r ->
+  (forall x, In x (map g_h (r_gates r')) -> ~ In x (handles l1) /\ ~ In x (handles l2)) ->
+  (forall x, In x live' <-> In x (handles l1) \/ In x (map g_h (r_gates r')) \/ In x (handles l2)) ->
+  (forall x, In x (handles l1) \/ In x (map g_h (r_gates r')) \/ In x (handles l2) -> In x used') ->
+  c_nres s <= nres' ->
+  cinv (Ctl (l1 ++ r' :: l2) nres' used' live').
+Proof.
+  intros (FI & ND & LV & US & NR & FR) E I' ER Fresh LV' US' LE.
+  rewrite E in *. apply Forall_mid in FI. destruct FI as (F1 & Ir & F2).
+  apply Forall_mid in FR. destruct FR as (R1 & Rr & R2).
+  unfold cinv. simpl. splits.
+  - apply Forall_mid. auto.
+  - rewrite handles_mid in *. eapply NoDup_mid_replace; eauto. apply I'.
+  - intros x. rewrite handles_mid, in_mid. auto.
+  - intros x. rewrite handles_mid, in_mid. auto.
+  - rewrite map_app in *. simpl in *. rewrite ER. auto.
+  - apply Forall_mid. splits.
+    + eapply Forall_impl; [|apply R1]. simpl. intros; lia.
+    + rewrite ER. lia.
+    + eapply Forall_impl; [|apply R2]. simpl. intros; lia.
+Qed.
+
+Lemma cinv_remove s l1 r l2 used' live' :
+  cinv s -> c_regions s = l1 ++ r :: l2 ->
+  (forall x, In x live' <-> In x (handles l1) \/ In x (handles l2)) ->
+  (forall x, In x (handles l1) \/ In x (handles l2) -> In x used') ->
+  cinv (Ctl (l1 ++ l2) (c_nres s) used' live').
+Proof.
+  intros (FI & ND & LV & US & NR & FR) E LV' US'.
+  rewrite E in *. apply Forall_mid in FI. destruct FI as (F1 & Ir & F2).
+  apply Forall_mid in FR. destruct FR as (R1 & Rr & R2).
+  unfold cinv. simpl. splits.
+  - apply Forall_app. auto.
+  - rewrite handles_mid in ND. rewrite handles_app. eapply NoDup_mid_remove; eauto.
+  - intros x. rewrite handles_app, in_app_iff. auto.
+  - intros x. rewrite handles_app, in_app_iff. auto.
+  - apply NoDup_res_mid in NR. apply NR.
+  - apply Forall_app. auto.
+Qed.
+
+Lemma cinv_insert s l1 l2 r' used' live' :
+  cinv s -> c_regions s = l1 ++ l2 -> rinv r' -> r_res r' = c_nres s + 1 ->
+  (forall x, In x (map g_h (r_gates r')) -> ~ In x (handles l1) /\ ~ In x (handles l2)) ->
+  (forall x, In x live' <-> In x (handles l1) \/ In x (map g_h (r_gates r')) \/ In x (handles l2)) ->
+  (forall x, In x (handles l1) \/ In x (map g_h (r_gates r')) \/ In x (handles l2) -> In x used') ->
+  cinv (Ctl (l1 ++ r' :: l2) (c_nres s + 1) used' live').
+Proof.
+  intros (FI & ND & LV & US & NR & FR) E I' ER Fresh LV' US'.
+  rewrite E in *. apply Forall_app in FI. destruct FI as (F1 & F2).
+  apply Forall_app in FR. destruct FR as (R1 & R2).
+  unfold cinv. simpl. splits.
+  - apply Forall_mid. auto.
+  - rewrite handles_mid. rewrite handles_app in ND.
+    apply NoDup_app_iff in ND. destruct ND as (N1 & N2 & D).
+    apply NoDup_app_iff. splits; auto.
+    + apply NoDup_app_iff. splits; auto. apply I'. intros x Ix. apply Fresh; auto.
+    + intros x Ix I. apply in_app_or in I. destruct I as [I|I].
+      * destruct (Fresh x I) as [Fa _]. auto.
+      * apply (D x); auto.
+  - intros x. rewrite handles_mid, in_mid. auto.
+  - intros x. rewrite handles_mid, in_mid. auto.
+  - rewrite map_app in *. simpl. apply NoDup_app_iff in NR. destruct NR as (N1 & N2 & D).
+    assert (Fr : forall l, Forall (fun r => r_res r <= c_nres s) l -> ~ In (r_res r') (map r_res l)).
+    { intros l Fl I. apply in_map_iff in I. destruct I as (y & Ey & Iy).
+      rewrite Forall_forall in Fl. specialize (Fl _ Iy). lia. }
+    apply NoDup_app_iff. splits; auto.
+    + constructor; auto.
+    + intros x Ix [<-|I]; [apply (Fr l1); auto|apply (D x); auto].
+  - apply Forall_mid. splits.
+    + eapply Forall_impl; [|apply R1]. simpl. intros; lia.
+    + lia.
+    + eapply Forall_impl; [|apply R2]. simpl. intros; lia.
+Qed.
+
+(* ---------- one step preserves the invariant and reports the right transfer ---------- *)
+Definition step_post (s s' : ctl) (ou : out) : Prop :=
+  cinv s' /\
+  exists rho, (forall k, k <> rho -> hold s' k = hold s k) /\
+              xrel (out_x ou) (hold s rho) (hold s' rho).
+
+Lemma step_post_same s used' st :
+  cinv s -> incl (c_used s) used' ->
+  step_post s (Ctl (c_regions s) (c_nres s) used' (c_live s)) (Out st false X0 0).
+Proof.
+  intros (FI & ND & LV & US & NR & FR) Inc. split.
+  - unfold cinv. simpl. splits; auto. intros x Ix. apply Inc, US; auto.
+  - exists 0. split; auto. left. auto.
+Qed.
+
+Lemma NoDup_mid_disj {A} (a g b : list A) x :
+  NoDup (a ++ g ++ b) -> In x g -> ~ In x a /\ ~ In x b.
+Proof.
+  rewrite !NoDup_app_iff. intros (Na & (Ng & Nb & Dgb) & Dab) Ix. split.
+  - intros I. apply (Dab x I). apply in_or_app; auto.
+  - apply Dgb; auto.
+Qed.
+
+Lemma region_open_empty shared res tr c :
+  region_open shared (Region res tr [] None 0) c =
+  (Region res (tr_union tr (o_tr c)) [Gate (o_h c) (o_subj c) (o_auth c) 0] (Some (o_h c)) 1, Ok,
+   X None (Some (o_subj c, o_auth c, res))).
+Proof. unfold region_open. simpl. rewrite andb_false_r. reflexivity. Qed.
+
+Lemma rinv_single res tr h sj a :
+  rinv (Region res tr [Gate h sj a 0] (Some h) 1).
+Proof.
+  unfold rinv. splits.
+  - simpl. constructor; [intros []|constructor].
+  - simpl. split; auto.
+  - simpl. constructor; [simpl; lia|constructor].
+  - exists (Gate h sj a 0). unfold cur, find_gate. simpl. rewrite N.eqb_refl. splits; auto.
+    split; [left; auto|]. intros x [<-|[]]. auto.
+Qed.
+
+Lemma existsb_eqb_false h l : existsb (N.eqb h) l = false -> ~ In h l.
+Proof.
+  intros E I. assert (existsb (N.eqb h) l = true); [|congruence].
+  apply existsb_exists. exists h. split; auto. apply N.eqb_refl.
+Qed.
+Lemma existsb_eqb_true h l : existsb (N.eqb h) l = true -> In h l.
+Proof.
+  intros E. apply existsb_exists in E. destruct E as (x & I & E). apply N.eqb_eq in E. subst; auto.
+Qed.
+
+Lemma open_gate_core shared s c s' ou :
+  cinv s -> open_gate true shared s c = (s', ou) -> step_post s s' ou.
+Proof.
+  intros I. unfold open_gate.
+  destruct (existsb (N.eqb (o_h c)) (c_used s)) eqn:U.
+  { intros H; inversion H; subst s' ou. destruct s as [rs nr us lv].
+    apply (step_post_same (Ctl rs nr us lv) us Skip I). apply incl_refl. }
+  apply existsb_eqb_false in U.
+  assert (Inc : incl (c_used s) (c_used s ++ [o_h c])) by (apply incl_appl, incl_refl).
+  destruct ((o_subj c =? 0) || tr_is_zero (o_tr c)).
+  { intros H; inversion H; subst. apply step_post_same; auto. }
+  pose proof I as (FI & ND & LV & US & NR & FR).
+  assert (NH : ~ In (o_h c) (handles (c_regions s))) by (intros X; apply U, US; auto).
+  destruct (n_overlapping c (c_regions s)) as [|[|n]] eqn:NO.
+  - (* a new region *)
+    unfold new_region. destruct (o_resfail c).
+    { intros H; inversion H; subst. apply step_post_same; auto. }
+    rewrite region_open_empty. unfold insert_region.
+    set (r1 := Region (c_nres s + 1) (tr_union (o_tr c) (o_tr c))
+                 [Gate (o_h c) (o_subj c) (o_auth c) 0] (Some (o_h c)) 1).
+    set (i := bsearch _ _ _ _ _).
+    set (l1 := firstn i (c_regions s)). set (l2 := skipn i (c_regions s)).
+    assert (E : c_regions s = l1 ++ l2) by (symmetry; apply firstn_skipn).
+    intros H; inversion H; subst s' ou. clear H.
+    rewrite E, handles_app in NH.
+    assert (Fresh : forall l, Forall (fun r => r_res r <= c_nres s) l -> ~ In (c_nres s + 1) (map r_res l)).
+    { intros l Fl X. apply in_map_iff in X. destruct X as (y & Ey & Iy).
+      rewrite Forall_forall in Fl. specialize (Fl _ Iy). lia. }
+    split.
+    + apply (cinv_insert s); auto.
+      * apply rinv_single.
+      * simpl. intros x [<-|[]]. split; intros X; apply NH, in_or_app; auto.
+      * simpl. intros x. rewrite in_app_iff, LV, E, handles_app, in_app_iff. simpl. tauto.
+      * simpl. intros x. rewrite in_app_iff. intros [X|[[<-|[]]|X]]; simpl; auto;
+          left; apply US; rewrite E, handles_app; apply in_or_app; auto.
+    + exists (c_nres s + 1). unfold hold. simpl. split.
+      * intros k Nk. rewrite holder_mid_other; auto. rewrite E. auto.
+      * right. simpl. rewrite (holder_none (c_regions s)); auto.
+        split; auto. rewrite E in FR. apply Forall_app in FR.
+        replace (c_nres s + 1) with (r_res r1) at 1 by reflexivity.
+        rewrite holder_mid_at; [|apply Fresh; apply FR].
+        unfold hst, cur, find_gate. simpl. rewrite N.eqb_refl. reflexivity.
+  - (* exactly one overlapping region *)
+    destruct (open_in_split shared c _ NO) as (l1 & r & l2 & r' & st & x & E & RO & ->).
+    rewrite E in FI. apply Forall_mid in FI. destruct FI as (F1 & Ir & F2).
+    rewrite E, handles_mid in NH, ND.
+    assert (NHr : ~ In (o_h c) (map g_h (r_gates r))) by (intros X; apply NH, in_mid; auto).
+    destruct (region_open_inv _ _ _ _ _ _ Ir NHr RO) as (Ir' & ER & XR & GOk & GNo & NP).
+    destruct (NoDup_res_mid _ _ _ (eq_ind _ (fun l => NoDup (map r_res l)) NR _ E)) as (R1 & R2 & _).
+    assert (HO : exists rho, (forall k, k <> rho -> holder (l1 ++ r' :: l2) k = hold s k) /\
+                 xrel x (hold s rho) (holder (l1 ++ r' :: l2) rho)).
+    { exists (r_res r). unfold hold. rewrite E. split.
+      - intros k Nk. rewrite !holder_mid_other; auto. congruence.
+      - rewrite holder_mid_at; auto. rewrite <- ER. rewrite holder_mid_at; [|rewrite ER; auto]. auto. }
+    assert (NonOk : st <> Ok ->
+      step_post s (Ctl (l1 ++ r' :: l2) (c_nres s) (c_used s ++ [o_h c]) (c_live s)) (Out st false x 0)).
+    { intros N. destruct (GNo N) as [EG ->]. split; auto.
+      apply (cinv_mid s l1 r l2); auto; try lia; rewrite EG.
+      - intros y Iy. eapply NoDup_mid_disj; eauto.
+      - intros y. rewrite LV, E, handles_mid, in_mid. tauto.
+      - intros y Iy. apply in_or_app. left. apply US. rewrite E, handles_mid, in_mid. auto. }
+    destruct st; try (intros H; inversion H; subst s' ou; apply NonOk; discriminate).
+    intros H; inversion H; subst s' ou. clear H NonOk. split; auto.
+    rewrite (GOk eq_refl) in *.
+    apply (cinv_mid s l1 r l2); auto; try lia; rewrite (GOk eq_refl), map_app; simpl.
+    + intros y Iy. apply in_app_or in Iy. destruct Iy as [Iy|[<-|[]]].
+      * eapply NoDup_mid_disj; eauto.
+      * split; intros X; apply NH, in_mid; auto.
+    + intros y. rewrite !in_app_iff, LV, E, handles_mid, in_mid. simpl. tauto.
+    + intros y Iy. rewrite in_app_iff in *. simpl.
+      destruct Iy as [Iy|[[Iy|[<-|[]]]|Iy]]; auto; left; apply US; rewrite E, handles_mid, in_mid; auto.
+  - intros H; inversion H; subst. apply step_post_same; auto.
+Qed.
+
+Lemma step_core ord shared s o s' ou :
+  cinv s -> is_perm ord -> step_gen ord true shared s o = (s', ou) ->
+  step_post s s' ou /\ step true shared s o = (s', ou).
+Proof.
+  intros I P. destruct o as [c|h a|h]; simpl.
+  - intros H. split; auto. eapply open_gate_core; eauto.
+  - (* SetAuthority *)
+    unfold step. simpl.
+    destruct (existsb (N.eqb h) (c_live s)) eqn:Lv.
+    2:{ intros H; inversion H; subst s' ou. split; auto. destruct s as [rs nr us lv].
+        apply (step_post_same (Ctl rs nr us lv) us Skip I). apply incl_refl. }
+    apply existsb_eqb_true in Lv.
+    pose proof I as (FI & ND & LV & US & NR & FR). apply LV in Lv.
+    destruct (on_region_split h _ Lv) as (l1 & r & l2 & E & Hh & Eo).
+    rewrite !Eo.
+    rewrite E in FI. apply Forall_mid in FI. destruct FI as (F1 & Ir & F2).
+    destruct (region_update ord r h a) as [[r' st] x] eqn:RU.
+    destruct (region_update_inv _ _ _ _ _ _ _ Ir P Hh RU) as (Ir' & -> & ER & EH & XR & RU').
+    rewrite RU'. simpl.
+    intros H; inversion H; subst s' ou. clear H. split; auto.
+    rewrite E, handles_mid in ND.
+    destruct (NoDup_res_mid _ _ _ (eq_ind _ (fun l => NoDup (map r_res l)) NR _ E)) as (R1 & R2 & _).
+    split.
+    + apply (cinv_mid s l1 r l2); auto; try lia; rewrite EH.
+      * intros y Iy. eapply NoDup_mid_disj; eauto.
+      * intros y. rewrite LV, E, handles_mid, in_mid. tauto.
+      * intros y Iy. apply US. rewrite E, handles_mid, in_mid. auto.
+    + exists (r_res r). unfold hold. simpl. rewrite E. split.
+      * intros k Nk. rewrite !holder_mid_other; auto. congruence.
+      * rewrite holder_mid_at; auto. rewrite <- ER. rewrite holder_mid_at; [|rewrite ER; auto]. auto.
+  - (* Release *)
+    unfold step. simpl.
+    destruct (existsb (N.eqb h) (c_live s)) eqn:Lv.
+    2:{ intros H; inversion H; subst s' ou. split; auto. destruct s as [rs nr us lv].
+        apply (step_post_same (Ctl rs nr us lv) us Skip I). apply incl_refl. }
+    apply existsb_eqb_true in Lv.
+    pose proof I as (FI & ND & LV & US & NR & FR). apply LV in Lv.
+    destruct (on_region_split h _ Lv) as (l1 & r & l2 & E & Hh & Eo).
+    rewrite !Eo.
+    rewrite E in FI. apply Forall_mid in FI. destruct FI as (F1 & Ir & F2).
+    destruct (region_release ord r h) as [[[r' x] res] rm] eqn:RR.
+    destruct (region_release_inv _ _ _ _ _ _ _ Ir P Hh RR) as (ER & EG & RR' & Post).
+    rewrite RR'. simpl.
+    intros H; inversion H; subst s' ou. clear H. split; auto.
+    rewrite E, handles_mid in ND.
+    destruct (NoDup_res_mid _ _ _ (eq_ind _ (fun l => NoDup (map r_res l)) NR _ E)) as (R1 & R2 & _).
+    assert (LiveF : forall y, In y (filter (fun k => negb (k =? h)) (c_live s)) <->
+              In y (handles l1) \/ In y (map g_h (r_gates r')) \/ In y (handles l2)).
+    { intros y. rewrite filter_In, LV, E, handles_mid, in_mid, EG, filter_h_map, filter_In.
+      rewrite negb_true_iff, N.eqb_neq.
+      destruct (NoDup_mid_disj _ _ _ h ND Hh) as [N1 N2].
+      split; [tauto|]. intros [X|[X|X]]; split; try tauto; intros ->; tauto. }
+    destruct rm.
+    + destruct Post as (G0 & -> & XF & XT).
+      rewrite <- ER. rewrite remove_region_mid; auto; [|rewrite ER; auto].
+      split.
+      * apply (cinv_remove s l1 r l2); auto.
+        -- intros y. rewrite LiveF, G0. simpl. tauto.
+        -- intros y Iy. apply US. rewrite E, handles_mid, in_mid. tauto.
+      * exists (r_res r). unfold hold. simpl. rewrite E. split.
+        -- intros k Nk. rewrite holder_mid_other; auto.
+        -- right. rewrite holder_mid_at; auto. split; auto. rewrite XT.
+           symmetry. apply holder_none. rewrite map_app. intros X. apply in_app_or in X. tauto.
+    + destruct Post as (Ir' & XR). split.
+      * apply (cinv_mid s l1 r l2); auto; try lia.
+        -- intros y Iy. rewrite EG, filter_h_map in Iy. apply filter_In in Iy.
+           eapply NoDup_mid_disj; eauto. tauto.
+        -- intros y Iy. apply US. rewrite E, handles_mid, in_mid.
+           rewrite EG, filter_h_map, filter_In in Iy. tauto.
+      * exists (r_res r). unfold hold. simpl. rewrite E. split.
+        -- intros k Nk. rewrite !holder_mid_other; auto. congruence.
+        -- rewrite holder_mid_at; auto. rewrite <- ER. rewrite holder_mid_at; [|rewrite ER; auto]. auto.
+Qed.
+
+(* ---------- reachable states ---------- *)
+Lemma is_perm_id : is_perm (fun l => l).
+Proof. intros l. apply Permutation_refl. Qed.
+
+Lemma cinv_init : cinv init.
+Proof.
+  unfold cinv, init. simpl. split; [constructor|]. split; [constructor|]. split; [tauto|].
+  split; [intros x []|]. split; constructor.
+Qed.
+
+Lemma step_cinv shared s o : cinv s -> cinv (fst (step true shared s o)).
+Proof.
+  intros I. destruct (step true shared s o) as [s' ou] eqn:E.
+  destruct (step_core (fun l => l) shared s o s' ou I is_perm_id E) as [[I' _] _]. auto.
+Qed.
+
+Lemma run_cinv shared ops : forall s, cinv s -> cinv (run true shared s ops).
+Proof.
+  induction ops as [|o rest IH]; simpl; auto. intros s I. apply IH, step_cinv; auto.
+Qed.
+
+(* every map iteration order gives the same run *)
+Lemma run_gen_eq shared ops : forall s,
+  cinv s -> Forall (fun p => is_perm (snd p)) ops ->
+  run_gen true shared s ops = run true shared s (map fst ops).
+Proof.
+  induction ops as [|[o ord] rest IH]; simpl; auto. intros s I F. inversion F; subst.
+  destruct (step_gen ord true shared s o) as [s' ou] eqn:E.
+  destruct (step_core ord shared s o s' ou I H1 E) as [[I' _] Es]. rewrite Es. simpl.
+  apply IH; auto.
+Qed.
+
+(* ---------- Authorize ---------- *)
+Lemma authorize_spec shared s h :
+  cinv s -> In h (c_live s) ->
+  exists r g l, In r (c_regions s) /\ In g (r_gates r) /\ g_h g = h /\
+    cur r = Some l /\ is_leader l (r_gates r) /\ NoDup (map g_h (r_gates r)) /\
+    authorize shared s h =
+      (if (if shared then g_auth l <=? g_auth g else g_h l =? h) then (true, r_res r) else (false, 0)).
+Proof.
+  intros (FI & ND & LV & _) Lv. apply LV in Lv.
+  destruct (region_of_split h _ Lv) as (l1 & r & l2 & E & Hh & RO).
+  rewrite E in FI. apply Forall_mid in FI. destruct FI as (_ & Ir & _).
+  pose proof (rinv_cur _ Ir) as (l & C & Ec & L & FG).
+  destruct (find_gate_is_some _ _ Hh) as (g & Fg).
+  destruct (find_gate_some _ _ _ Fg) as (Ig & Eh).
+  exists r, g, l. splits; auto.
+  - rewrite E. apply in_or_app. right. left. auto.
+  - apply Ir.
+  - unfold authorize. rewrite RO, Fg, Ec, C. destruct shared; auto.
+Qed.
+
+(* ---------- transfers ---------- *)
+Lemma occurred_same a : occurred (X a a) = false.
+Proof.
+  unfold occurred. simpl. destruct a as [[[sj au] rs]|]; auto. simpl. rewrite !N.eqb_refl. auto.
+Qed.
+
+Lemma not_occurred_eq f t rho :
+  occurred (X f t) = false ->
+  (forall st, f = Some st -> snd st = rho) -> (forall st, t = Some st -> snd st = rho) -> f = t.
+Proof.
+  unfold occurred. simpl. destruct f as [[[s1 a1] r1]|], t as [[[s2 a2] r2]|]; simpl; auto; try discriminate.
+  intros H Hf Ht. apply negb_false_iff, andb_true_iff in H. destruct H as [E1 E2].
+  apply N.eqb_eq in E1, E2. subst.
+  specialize (Hf _ eq_refl). specialize (Ht _ eq_refl). simpl in *. subst. auto.
+Qed.
+
+Lemma transfer_exact shared s o s' ou :
+  cinv s -> step true shared s o = (s', ou) ->
+  (forall rho, hold s rho <> hold s' rho ->
+     x_from (out_x ou) = hold s rho /\ x_to (out_x ou) = hold s' rho) /\
+  ((forall rho, hold s rho = hold s' rho) -> occurred (out_x ou) = false) /\
+  (forall rho1 rho2, hold s rho1 <> hold s' rho1 -> hold s rho2 <> hold s' rho2 -> rho1 = rho2).
+Proof.
+  intros I E.
+  destruct (step_core (fun l => l) shared s o s' ou I is_perm_id E) as [[_ (rho0 & Oth & XR)] _].
+  assert (Only : forall rho, hold s rho <> hold s' rho -> rho = rho0).
+  { intros rho Nq. destruct (N.eq_dec rho rho0); auto. exfalso. apply Nq. symmetry. apply Oth; auto. }
+  splits.
+  - intros rho Nq. pose proof (Only _ Nq) as Er. subst rho.
+    destruct XR as [[_ Eq]|XR]; [contradiction|auto].
+  - intros Same. destruct XR as [[-> _]|[Ef Et]]; auto.
+    destruct (out_x ou) as [f t]. simpl in *. subst. rewrite Same. apply occurred_same.
+  - intros r1 r2 N1 N2. pose proof (Only _ N1). pose proof (Only _ N2). congruence.
+Qed.
+
+Lemma apply_xfer_step H x s s' rho0 :
+  (forall k, H k = hold s k) ->
+  (forall k, k <> rho0 -> hold s' k = hold s k) ->
+  xrel x (hold s rho0) (hold s' rho0) ->
+  forall k, apply_xfer H x k = hold s' k.
+Proof.
+  intros EH Oth XR k. unfold apply_xfer.
+  destruct XR as [[-> Eq]|[Ef Et]].
+  - simpl. rewrite EH. destruct (N.eq_dec k rho0) as [->|Nk]; auto. symmetry; auto.
+  - destruct x as [f t]. simpl in *.
+    assert (Rf : forall st, f = Some st -> snd st = rho0).
+    { intros st ->. symmetry in Ef. apply holder_res in Ef. auto. }
+    assert (Rt : forall st, t = Some st -> snd st = rho0).
+    { intros st ->. symmetry in Et. apply holder_res in Et. auto. }
+    destruct (occurred (X f t)) eqn:Oc.
+    + destruct t as [st|].
+      * rewrite (Rt _ eq_refl). destruct (k =? rho0) eqn:Ek.
+        -- apply N.eqb_eq in Ek. subst. auto.
+        -- apply N.eqb_neq in Ek. rewrite EH. symmetry; auto.
+      * destruct f as [sf|].
+        -- rewrite (Rf _ eq_refl). destruct (k =? rho0) eqn:Ek.
+           ++ apply N.eqb_eq in Ek. subst. auto.
+           ++ apply N.eqb_neq in Ek. rewrite EH. symmetry; auto.
+        -- discriminate.
+    + rewrite EH. destruct (N.eq_dec k rho0) as [->|Nk]; [|symmetry; auto].
+      rewrite <- Ef, <- Et. eapply not_occurred_eq; eauto.
+Qed.
+
+Lemma reconstruct shared ops : forall s H,
+  cinv s -> (forall k, H k = hold s k) ->
+  forall k, fold_left apply_xfer (map out_x (outs true shared s ops)) H k
+            = hold (run true shared s ops) k.
+Proof.
+  induction ops as [|o rest IH]; simpl; intros s H I EH k; auto.
+  destruct (step true shared s o) as [s' ou] eqn:E. simpl.
+  destruct (step_core (fun l => l) shared s o s' ou I is_perm_id E) as [[I' (rho0 & Oth & XR)] _].
+  apply IH; auto. eapply apply_xfer_step; eauto.
+Qed.
+
+(* ---------- user-facing forms ---------- *)
+Lemma leader_inv shared ops r :
+  In r (c_regions (run true shared init ops)) ->
+  exists l, cur r = Some l /\ In l (r_gates r) /\
+    (forall g, In g (r_gates r) ->
+       g = l \/ g_auth g < g_auth l \/ (g_auth g = g_auth l /\ g_pos l < g_pos g)) /\
+    pos_sorted (r_gates r).
+Proof.
+  intros Ir. pose proof (run_cinv shared ops init cinv_init) as (FI & _).
+  rewrite Forall_forall in FI. specialize (FI _ Ir).
+  pose proof (rinv_cur _ FI) as (l & C & _ & [Il Ml] & _). exists l. splits; auto.
+  - intros g Ig. destruct (Ml _ Ig) as [|B]; auto. apply better_spec in B. right. lia.
+  - apply FI.
+Qed.
+
+Lemma authorize_iff shared ops h :
+  let s := run true shared init ops in
+  In h (c_live s) ->
+  exists r g l, In r (c_regions s) /\ In g (r_gates r) /\ g_h g = h /\ cur r = Some l /\
+    (fst (authorize shared s h) = true <->
+       if shared then g_auth l <= g_auth g else g = l) /\
+    (g_auth l <= g_auth g <-> g_auth g = g_auth l) /\
+    snd (authorize shared s h) = (if fst (authorize shared s h) then r_res r else 0).
+Proof.
+  intros s Lv. pose proof (run_cinv shared ops init cinv_init) as I.
+  destruct (authorize_spec shared _ h I Lv) as (r & g & l & Ir & Ig & Eh & C & L & ND & EA).
+  exists r, g, l. fold s in EA. splits; auto.
+  - rewrite EA. destruct shared.
+    + destruct (g_auth l <=? g_auth g) eqn:Le; simpl.
+      * apply N.leb_le in Le. tauto.
+      * apply N.leb_gt in Le. split; [discriminate|lia].
+    + destruct (g_h l =? h) eqn:El; simpl.
+      * apply N.eqb_eq in El. split; auto. intros _.
+        apply (NoDup_h_inj (r_gates r)); auto; [apply L|congruence].
+      * apply N.eqb_neq in El. split; [discriminate|]. intros ->. congruence.
+  - pose proof (leader_auth _ _ _ L Ig). lia.
+  - rewrite EA. destruct (if shared then _ else _); auto.
 Qed.
